@@ -1,0 +1,103 @@
+//go:build verif
+
+// Contracts for package pkg, checked by /verif/govc. Comment-only: with the build tag off the compiler never
+// sees this file; with it on, the file contains nothing but the package clause.
+
+package pkg
+
+// ---------------------------------------------------------------------------------------------------------
+// Number classes and the three-way comparison the six comparison operators must agree with (C19).
+// Kinds use reflect's numbering: Bool=1 Int..Int64=2..6 Uint..Uint64=7..11 Float32/64=13/14 Interface=20
+// Pointer=22 String=24 Struct=25.
+// ---------------------------------------------------------------------------------------------------------
+
+//@ pure func isSignedK(k int) bool   { return 2 <= k && k <= 6 }
+//@ pure func isUnsignedK(k int) bool { return 7 <= k && k <= 11 }
+//@ pure func isFloatK(k int) bool    { return k == 13 || k == 14 }
+//@ pure func isTimeRV(v RV) bool     { return v.kind == 25 && v.typ == typeid(time.Time) }
+
+// class: 1 signed, 2 unsigned, 3 float, 4 string, 5 bool, 6 time, 0 anything else
+//@ pure func class(v RV) int { return ite(isSignedK(v.kind), 1, ite(isUnsignedK(v.kind), 2, ite(isFloatK(v.kind), 3,
+//@     ite(v.kind == 24, 4, ite(v.kind == 1, 5, ite(isTimeRV(v), 6, 0)))))) }
+//@ pure func isNum(v RV) bool { return class(v) == 1 || class(v) == 2 || class(v) == 3 }
+
+// the float64 a number is promoted to
+//@ pure func toF(v RV) float64 { return ite(class(v) == 3, v.f, ite(class(v) == 1, sfloat(v.bits), ufloat(v.bits))) }
+
+// well-formed reflect.Value: only a struct can have type time.Time (reflect invariant, input validity)
+//@ pure func wfRV(v RV) bool { return v.typ == typeid(time.Time) ==> v.kind == 25 }
+
+// cmp3: -1 / 0 / +1, defined on classes and payloads only (never on widths, signedness or side)
+//@ pure func cmp3(l RV, r RV) int {
+//@   return ite(class(l) == 4, ite(l.s < r.s, -1, ite(l.s == r.s, 0, 1)),
+//@          ite(class(l) == 6, ite(time_before(l.tm, r.tm), -1, ite(time_equal(l.tm, r.tm), 0, 1)),
+//@          ite(class(l) == 3 || class(r) == 3, ite(toF(l) < toF(r), -1, ite(feq(toF(l), toF(r)), 0, 1)),
+//@                                             ite(l.bits < r.bits, -1, ite(l.bits == r.bits, 0, 1))))) }
+
+// the property's domain: same family, NaN excluded, unsigned operands inside the int64 range
+//@ pure func ordered(l RV, r RV) bool {
+//@   return wfRV(l) && wfRV(r) && ((isNum(l) && isNum(r) && !isNaN(toF(l)) && !isNaN(toF(r))
+//@             && (class(l) == 2 ==> l.bits >= bv(0)) && (class(r) == 2 ==> r.bits >= bv(0)))
+//@       || (class(l) == 4 && class(r) == 4) || (class(l) == 6 && class(r) == 6)) }
+//@ pure func bothBool(l RV, r RV) bool { return wfRV(l) && wfRV(r) && class(l) == 5 && class(r) == 5 }
+
+//@ extern pure func time_before(t Time, u Time) bool
+//@ extern pure func time_equal(t Time, u Time) bool
+//@ extern pure func time_after(t Time, u Time) bool
+//@ extern pure func rv_elem(v RV) RV
+//@ extern pure func strip(v RV) RV
+//@ extern axiom od_strip_base: forall v RV {strip(v)} :: (v.kind != 22 && v.kind != 20) ==> strip(v) == v
+//@ extern axiom od_strip_step: forall v RV {strip(rv_elem(v))} :: (v.kind == 22 || v.kind == 20) ==> strip(v) == strip(rv_elem(v))
+
+//@ func GetValueElem(val) (r)
+//@   serves C19 C05 C04
+//@   opt axioms=od_strip_base,od_strip_step
+//@   nopanic
+//@   ensures r == strip(val)
+//@   ensures r.kind != 22 && r.kind != 20
+
+//@ func EvaluateGreaterThan(left, right) (res, err)
+//@   serves C19 C05
+//@   ints bv
+//@   requires ordered(strip(left), strip(right))
+//@   nopanic
+//@   ensures err == nil && res.kind == 1 && res.b == (cmp3(strip(left), strip(right)) > 0)
+
+//@ func EvaluateLesserThan(left, right) (res, err)
+//@   serves C19 C05
+//@   ints bv
+//@   requires ordered(strip(left), strip(right))
+//@   nopanic
+//@   ensures err == nil && res.kind == 1 && res.b == (cmp3(strip(left), strip(right)) < 0)
+
+//@ func EvaluateGreaterThanEqual(left, right) (res, err)
+//@   serves C19 C05
+//@   ints bv
+//@   requires ordered(strip(left), strip(right))
+//@   nopanic
+//@   ensures err == nil && res.kind == 1 && res.b == (cmp3(strip(left), strip(right)) >= 0)
+
+//@ func EvaluateLesserThanEqual(left, right) (res, err)
+//@   serves C19 C05
+//@   ints bv
+//@   requires ordered(strip(left), strip(right))
+//@   nopanic
+//@   ensures err == nil && res.kind == 1 && res.b == (cmp3(strip(left), strip(right)) <= 0)
+
+//@ func EvaluateEqual(left, right) (res, err)
+//@   serves C19 C05
+//@   ints bv
+//@   requires ordered(strip(left), strip(right)) || bothBool(strip(left), strip(right))
+//@   nopanic
+//@   ensures err == nil && res.kind == 1
+//@   ensures ordered(strip(left), strip(right)) ==> res.b == (cmp3(strip(left), strip(right)) == 0)
+//@   ensures bothBool(strip(left), strip(right)) ==> res.b == (strip(left).b == strip(right).b)
+
+//@ func EvaluateNotEqual(left, right) (res, err)
+//@   serves C19 C05
+//@   ints bv
+//@   requires ordered(strip(left), strip(right)) || bothBool(strip(left), strip(right))
+//@   nopanic
+//@   ensures err == nil && res.kind == 1
+//@   ensures ordered(strip(left), strip(right)) ==> res.b == (cmp3(strip(left), strip(right)) != 0)
+//@   ensures bothBool(strip(left), strip(right)) ==> res.b == (strip(left).b != strip(right).b)
